@@ -59,8 +59,9 @@ def run(ctx):
     from odf.element import Element
     from odf import text
     # correspondence (the proofs are about the model)
-    XC.corr_strings(ctx, XC.short_strings(2))
-    XC.corr_strings(ctx, (X.rand_text(ctx.rng, 30) for _ in range(500 if ctx.quick else 10000)))
+    XC.corr_strings(ctx, XC.DIRECTED, oracle='wf')
+    XC.corr_strings(ctx, XC.short_strings(2), oracle='wf')
+    XC.corr_strings(ctx, (X.rand_text(ctx.rng, 30) for _ in range(500 if ctx.quick else 10000)), oracle='wf')
     for i in range(250 if ctx.quick else 4000):
         t = X.rand_tree(ctx.rng)
         e, real, ex = XC.corr_tree(ctx, t)
